@@ -144,8 +144,17 @@ CRASHES: list[Finding] = []
 DEADLINES: list[tproj.Deadline] = []
 
 
+class Unconfined(Exception):
+	"""A configuration the generators consider confined to the temporary project has — according to the REAL output_filepath —
+	an output outside it (or a path that is not absolute): an outcome of the real code (a finding), never an infrastructure failure."""
+
+
 def crashed(where: str, e: BaseException, replay: dict[str, Any]) -> None:
 	import traceback
+	if isinstance(e, Unconfined):
+		if sum(1 for f in CRASHES if f.key == 'output-path-unconfined') < 3:
+			CRASHES.append(Finding(key='output-path-unconfined', what=f'{where}: {e}'[:500], replay={**replay, 'where': where}))
+		return
 	tb = traceback.extract_tb(e.__traceback__)
 	real = [f for f in tb if 'rogw' in f.filename]
 	at = f'{os.path.basename(real[-1].filename)}:{real[-1].lineno} {real[-1].name}' if real else (f'{os.path.basename(tb[-1].filename)}:{tb[-1].lineno}' if tb else '?')
@@ -722,6 +731,10 @@ TYPES = [('int', '1'), ('str', "'x'"), ('float', '1.5'), ('bool', 'True')]
 N_VARIANTS = 24
 
 
+LONG_A = 'app.subsystem_alpha_components.implementation_details_layer.generated_adapters.module_with_a_rather_long_descriptive_name'
+LONG_B = 'lib.shared_infrastructure_services.persistence_and_serialisation.long_named_value_objects'
+
+
 def graph_shapes() -> dict[str, dict[str, list[str]]]:
 	"""module (dotted, with package) ↦ direct imports; every module is a target. Two packages so that prefix rules can be exercised."""
 	return {
@@ -741,12 +754,19 @@ def graph_shapes() -> dict[str, dict[str, list[str]]]:
 		# modules whose source does not mention their own name (is_anon): empty `__init__.py` files in two packages and two copies
 		# of one file — BYTE-IDENTICAL sources (equal md5) at different module paths, regenerated by the same run
 		'twins': {'app.p.__init__': [], 'app.p.same': [], 'app.u': [], 'lib.q.__init__': [], 'lib.q.same': []},
+		# the repository's own example package, copied into the project (sources byte-identical to REPO/example): the tranp root
+		# holds a committed output (example/json.h) with the header of exactly this source — an existence check / header read-back
+		# that is resolved against the tranp root instead of the working directory finds that twin
+		'twinroot': {'example.json': []},		# (example/FW/string.py is copied as well but — as in example/config.yml — not a target)
+		# dotted module paths of 70–120 characters (deep packages, long names): the header line grows with the path
+		'longpath': {LONG_A: [LONG_B], LONG_B: [], 'app.s': []},
 		'twins3': {'app.__init__': [], 'app.same': [], 'app.sub.__init__': [], 'app.sub.same': [], 'lib.same': []},
 	}
 
 
 # explicit module list order (= order of input_globs, one file per entry); other shapes use one recursive glob per package
 MODULE_ORDER: dict[str, list[str]] = {
+	'twinroot': ['example.json'],
 	'subnames': ['app.shape_utils', 'app.xshape', 'app.shape', 'app.other'],
 	'subnames_pkg': ['lib.app.m1', 'app.m10', 'app.sub.m1', 'app.m1', 'app.m'],
 }
@@ -909,6 +929,9 @@ class RealCase:
 		self.vers = {'app': versions()[0], 'py2cpp': versions()[1]}
 		for m in self.graph:
 			self.proj.write_module(m, self.source(m))
+		if shape == 'twinroot':
+			with open(os.path.join(common.REPO, 'example', 'FW', 'string.py'), encoding='utf-8') as f:
+				self.proj.write_module('example.FW.string', f.read())
 		if seed_cache:
 			shutil.copytree(cache_template(ctx), os.path.join(root, '.cache'), dirs_exist_ok=True, copy_function=shutil.copy2)
 		# when each output was last written, as {module: source} snapshot (for the diagnosis of stale outputs)
@@ -933,6 +956,11 @@ class RealCase:
 		return c
 
 	def source(self, m: str) -> str:
+		if self.shape == 'twinroot':
+			# byte-identical copy of the repository's example package (variant 0), or the copy plus a trailing comment line
+			with open(os.path.join(common.REPO, *m.split('.')) + '.py', encoding='utf-8') as f:
+				text = f.read()
+			return text if self.variants[m] % 4 == 0 else text + f'\n# edited {self.variants[m] % 4}\n'
 		return with_extras(module_source(m, self.graph[m], self.variants[m]), m, self.extras.get(m, 0))
 
 	def token(self, m: str) -> str:
@@ -954,22 +982,28 @@ class RealCase:
 		return real_output_filepath(self.proj.output_dirs, self.proj.output_language, m, self.proj.root)
 
 	def safe(self, dirs: list[str] | None = None) -> bool:
-		"""Every module's real output path lies inside the project directory and is not a source, the config or a cache file."""
+		return not self.unsafe_reason(dirs)
+
+	def unsafe_reason(self, dirs: list[str] | None = None) -> str:
+		"""'' if every module's real output path is absolute, lies inside the project directory and is not a source, the config or a
+		cache file; else what the real `output_filepath` answered for the first offending module."""
 		dirs = self.proj.output_dirs if dirs is None else dirs
 		for m in self.graph:
 			r = real_output_filepath(dirs, self.proj.output_language, m, self.proj.root)
 			if not r.startswith('ok '):
 				continue
 			p = common.unhx(r[3:])
+			if not os.path.isabs(p):
+				return f'output_filepath({m}) = {p!r} is not an absolute path (cwd {self.proj.root}): existence check, header read-back and write may resolve it differently'
 			rel = os.path.relpath(p, self.proj.root)
 			if rel.startswith('..') or os.path.isabs(rel) or rel.startswith('.cache') or rel == 'config.yml' or rel.endswith('.py'):
-				return False
+				return f'output_filepath({m}) = {p!r} is outside the project directory {self.proj.root} (or a source / config / cache file)'
 			# the file system itself (a file where a directory is needed: NotADirectoryError / IsADirectoryError) is not modelled:
 			# output files carry a dot in their name, directories never do (e.g. the prefix rule 'app/x.h:out/' maps app.x to the FILE 'out')
 			parts = rel.split(os.sep)
 			if rel in ('.', '') or os.path.isdir(p) or '.' not in parts[-1] or any('.' in d for d in parts[:-1]):
-				return False
-		return True
+				return f'output_filepath({m}) = {p!r} needs a file where a directory is (file-system conflicts are not generated)'
+		return ''
 
 	def prelude(self) -> list[str]:
 		av, tv, tm = versions()
@@ -1133,6 +1167,8 @@ def gen_owner_switch(rng: random.Random, graph: dict[str, list[str]]) -> tuple[l
 
 def gen_variants(rng: random.Random, graph: dict[str, list[str]]) -> dict[str, int]:
 	out = {m: rng.randrange(N_VARIANTS) for m in graph}
+	if any(m.startswith('example.') for m in graph):
+		out = {m: 0 for m in graph}		# the copies start byte-identical to the repository's files
 	# name-free modules mostly start byte-identical (all `__init__.py` empty, all copies of `same.py` equal)
 	if any(is_anon(m) for m in graph) and rng.random() < 0.8:
 		v = rng.randrange(N_VARIANTS)
@@ -1206,7 +1242,7 @@ def case_runner(ctx: Ctx, rng: random.Random, n_ops: int, fixed: dict[str, Any] 
 				case.proj.write_config()
 				break
 	elif not case.safe():
-		raise common.InfraError(f"C06: corpus case {fixed.get('file')} is not confined to the project directory")
+		raise Unconfined(f"corpus case {fixed.get('file')}: {case.unsafe_reason()}")
 	lines = case.prelude()
 	real = [case.observe('ok', [], [])] * len(lines)
 	kinds: list[str] = []
@@ -1216,7 +1252,7 @@ def case_runner(ctx: Ctx, rng: random.Random, n_ops: int, fixed: dict[str, Any] 
 	for i in range(len(ops) if ops is not None else n_ops):
 		op = ops[i] if ops is not None else next_op(rng, case)
 		if op[0] == 'setdirs' and not case.safe(op[1]):
-			raise common.InfraError('C06: unsafe output_dirs in a real run')
+			raise Unconfined(f'output_dirs {op[1]}: {case.unsafe_reason(op[1])}')
 		line, obs = case.apply(op)
 		done.append(op)
 		lines.append(line)
@@ -1460,7 +1496,8 @@ def fixpoint_history(ctx: Ctx, rng: random.Random, res: SearchResult, hist: Coun
 			directed = [['run', rng.choice([0, 1])], ['edit', d, (case.variants[d] + rng.randint(1, 3)) % 4 + 4 * (case.variants[d] // 4)]]
 	if not case.safe():
 		case.dispose()
-		raise common.InfraError('C06: fix-point plan is not confined to the project directory')
+		why = case.unsafe_reason()
+		raise Unconfined(f'fix-point plan {shape} {list(case.proj.output_dirs)}: {why}')
 	init_dirs = list(case.proj.output_dirs)
 	done: list[list[Any]] = []
 	ops = plan['ops'] if plan is not None else None
@@ -1542,6 +1579,13 @@ def fixpoint_history(ctx: Ctx, rng: random.Random, res: SearchResult, hist: Coun
 
 
 DIRECTED_PLANS: list[dict[str, Any]] = [
+	# a fresh copy of the repository's example package, outputs beside the sources (the shipped example/config.yml does the same),
+	# no output yet: the plain run has to write every output INTO THE PROJECT (the tranp root holds example/json.h with an equal header)
+	{'search': 'fixpoint', 'shape': 'twinroot', 'variants': {'example.json': 0}, 'dirs': ['./'], 'lang': 'cpp:h', 'ops': []},
+	{'search': 'fixpoint', 'shape': 'twinroot', 'variants': {'example.json': 0}, 'dirs': ['./'], 'lang': 'cpp:h', 'ops': [['run', 0], ['rm', 'example.json']]},
+	# module paths of 70–120 characters: a run, an edit of the long-named modules, a plain run has to regenerate them
+	{'search': 'fixpoint', 'shape': 'longpath', 'variants': {LONG_A: 5, LONG_B: 2, 'app.s': 1}, 'dirs': ['./out'], 'lang': 'cpp:h',
+		'ops': [['run', 0], ['edit', LONG_A, 6], ['edit', 'app.s', 2]]},
 	# byte-identical sources at different module paths (two empty __init__.py, two copies of one file), regenerated by one run
 	{'search': 'fixpoint', 'shape': 'twins', 'variants': {'app.p.__init__': 0, 'app.p.same': 5, 'app.u': 2, 'lib.q.__init__': 0, 'lib.q.same': 5}, 'dirs': ['./out'], 'lang': 'cpp:h',
 		'ops': []},
@@ -1729,6 +1773,15 @@ def search_paths(ctx: Ctx) -> SearchResult:
 				res.findings.append(Finding(key=f'output-path-error:{bad[0]}', what=f'output_dirs {dirs}: output_filepath raises {bad} for a well-formed configuration',
 					replay={'search': 'paths', 'dirs': dirs, 'lang': lang, 'modules': mods}))
 			continue
+		# `output_filepath` answers with an ABSOLUTE path: the existence check, the header read-back (source loader: cwd, then the
+		# tranp root, then its library directory) and the Writer must all mean the same file
+		rel = sorted(m for m, o in outs.items() if not os.path.isabs(common.unhx(o[3:])))
+		if rel:
+			hist['finding:output-path-not-absolute'] += 1
+			if sum(1 for f in res.findings if f.key == 'output-path-not-absolute') < 3:
+				res.findings.append(Finding(key='output-path-not-absolute', what=f'output_dirs {dirs}: output_filepath({rel[0]}) = {common.unhx(outs[rel[0]][3:])!r} is not absolute (cwd {base})',
+					replay={'search': 'paths', 'dirs': dirs, 'lang': lang, 'modules': rel[:1]}))
+			continue
 		# each path against the documented meaning of the rules (an oracle that does not call the code under test)
 		wrong = False
 		for m, o in outs.items():
@@ -1771,7 +1824,7 @@ def force_case(ctx: Ctx, shape: str, variants: dict[str, int], force_cfg: bool |
 		for op in pre_ops:
 			case.apply(op)
 		status, _, writes, _ = case.run(True)
-		expected = sorted(common.unhx(case.real_path(m)[3:]) for m in case.graph)
+		expected = sorted(os.path.normpath(os.path.join(case.proj.root, common.unhx(case.real_path(m)[3:]))) for m in case.graph)
 		missing = [os.path.relpath(p, case.proj.root) for p in expected if p not in writes]
 		if status != 'ok':
 			return True, f'run -f fails with {status}', replay
@@ -1780,6 +1833,52 @@ def force_case(ctx: Ctx, shape: str, variants: dict[str, int], force_cfg: bool |
 		return False, '', replay
 	finally:
 		case.dispose()
+
+
+def search_fresh_outputs(ctx: Ctx) -> SearchResult:
+	"""Outputs are checked for, read back and written at ONE place — the project: a plain run over a project without outputs writes
+	every module's output where the documented rules put it (the harness' own `expected_output_path`, not the code under test),
+	and writes it again after it was deleted. The projects are copies of the repository's example package (whose committed
+	example/json.h under the tranp root carries the header of exactly that source) and generated ones, with relative output_dirs
+	and a working directory that is not the tranp root."""
+	rng = ctx.sub_rng('fresh-outputs')
+	res = SearchResult('a plain run over a project without outputs writes every output into the project, and again after the output was deleted (relative output_dirs, cwd ≠ tranp root)')
+	hist: Counter[str] = Counter()
+	plans: list[tuple[str, dict[str, int], list[str]]] = [('twinroot', {'example.json': 0}, ['./']), ('twinroot', {'example.json': 0}, [rng.choice(['out', './out', 'example/:gen/', 'example/*:out2'])])]
+	shape = rng.choice(['chain2', 'flat3', 'subpkg'])
+	plans.append((shape, gen_variants(rng, graph_shapes()[shape]), [rng.choice(['./', 'out', './out'])]))
+	for shape, variants, dirs in plans:
+		replay = {'search': 'fresh-outputs', 'shape': shape, 'variants': variants, 'dirs': dirs}
+		try:
+			case = RealCase(ctx, shape, variants, dirs)
+			expected: dict[str, str] = {}
+			for m in case.graph:
+				exp = expected_output_path(dirs, 'cpp:h', m, case.proj.root)
+				if exp is not None:
+					expected[m] = os.path.relpath(exp[0], case.proj.root)
+			for step in ('first run', 'run after the outputs were deleted'):
+				res.cases += 1
+				status = case.run(False)[0]
+				files = case.proj.output_files()
+				missing = sorted(rel for rel in expected.values() if rel not in files)
+				hist[f"{shape}:{'ok' if status == 'ok' and not missing else 'violated'}"] += 1
+				if status != 'ok':
+					res.findings.append(Finding(key=f'run-fails:{status}', what=f'plain run over a valid project without outputs ({step}) fails with {status}', replay=replay))
+					break
+				if missing:
+					res.findings.append(Finding(key='output-not-written-into-project', what=f'{step}: the plain run ends with ok, yet {missing} do(es) not exist in the project (output_dirs {dirs}, cwd {case.proj.root}); '
+						f'files there: {sorted(files)}', replay=replay))
+					break
+				for rel in expected.values():
+					os.unlink(os.path.join(case.proj.root, rel))
+			case.dispose()
+		except common.InfraError:
+			raise
+		except Exception as e:  # noqa: BLE001 - rule 14
+			crashed('fresh-outputs-search', e, replay)
+	res.distinct = len(plans)
+	res.histogram = dict(hist)
+	return res
 
 
 def search_force(ctx: Ctx) -> SearchResult:
@@ -1848,6 +1947,7 @@ STATEMENTS = {
 	'fixpoint_shared_path_counterexample': 'fixpoint_partial without pairwise distinct paths is false: two modules at one path make every plain run rewrite the other module (targets are selected up front), unlike a forced run',
 	'paths_iff': 'the decidable NoOverlap check ⇔ every listed module has a path and different list positions have different paths',
 	'paths_counterexample': "prefix rule 'app/:out' + fallback 'out' sends app.x and x to the same file: path injectivity is false in general",
+	'output_path_absolute': 'output_filepath answers with an ABSOLUTE path for every configuration and module path when the working directory is absolute: existence check, header read-back (the source loader resolves relative paths against cwd, then the tranp root, then its library directory) and the Writer mean one file (real regression class: searches `paths` output-path-not-absolute and `fresh-outputs`)',
 	'paths_fallback_only': 'with a fallback-only output_dirs (the shipped configuration) distinct clean module paths never share an output path — for all module paths, directories, absolute cwds',
 }
 
@@ -1857,7 +1957,7 @@ def build_streams(ctx: Ctx) -> list[Stream]:
 
 
 def build_searches(ctx: Ctx) -> list[SearchResult]:
-	out = [search_roundtrip(ctx), search_paths(ctx), search_force(ctx), search_fixpoint(ctx)]
+	out = [search_roundtrip(ctx), search_paths(ctx), search_force(ctx), search_fresh_outputs(ctx), search_fixpoint(ctx)]
 	out.append(search_crashes(ctx))
 	ctx.notes.extend(n for n in (d.note() for d in DEADLINES) if n)
 	ctx.notes.extend(tproj.budget_notes())
@@ -1939,6 +2039,9 @@ def replay(ctx: Ctx, path: str) -> int:
 		bad, why, _ = force_case(ctx, inp['shape'], inp['variants'], inp.get('force_cfg'), inp['ops'][:-1])
 		if bad:
 			res.findings.append(Finding('replay', why, inp))
+	elif kind == 'fresh-outputs':
+		r2 = search_fresh_outputs(ctx)
+		res.findings.extend(r2.findings)
 	elif kind == 'paths':
 		base = os.path.realpath(ctx.tmpdir('tranp-c06-inj-'))
 		outs = {m: real_output_filepath(inp['dirs'], inp['lang'], m, base) for m in inp['modules']}
